@@ -189,6 +189,9 @@ pub fn install_panic_hook() {
             .unwrap_or_default();
         // keep the message short and free of addresses
         let first = msg.lines().next().unwrap_or("").to_string();
+        if std::env::var("NLV_LOUD_PANIC").is_ok() {
+            eprintln!("PANIC {first} @ {loc}\n{}", std::backtrace::Backtrace::force_capture());
+        }
         LAST_PANIC.with(|p| *p.borrow_mut() = Some(format!("{first} @ {loc}")));
     }));
 }
@@ -492,6 +495,7 @@ pub fn case_end(outcome: Outcome, walker: Walker, ticks: u64) -> Obs {
 
 /// Evaluates a program text with `nederlang::eval` under the hooks
 pub fn run_eval(src: &str, cfg: &RunCfg) -> Obs {
+    note_current("eval", src);
     case_begin(cfg.budget);
     let r = catch_unwind(AssertUnwindSafe(|| nederlang::eval(src)));
     let ticks = verif::ticks();
@@ -511,4 +515,89 @@ pub fn with_big_stack<T: Send + 'static>(f: impl FnOnce() -> T + Send + 'static)
         .expect("spawn")
         .join()
         .expect("harness thread panicked")
+}
+
+thread_local! {
+    static SNAPSHOT: RefCell<Option<Vec<Val>>> = const { RefCell::new(None) };
+}
+
+/// Like `run_eval`, and additionally walks the first `n` global variables at the moment the
+/// run ends (H7: before the collector is dropped). The values share one walker, so aliasing
+/// between the variables is part of the snapshot.
+pub fn run_eval_snapshot(src: &str, cfg: &RunCfg, n: usize) -> (Obs, Option<Vec<Val>>) {
+    SNAPSHOT.with(|s| *s.borrow_mut() = None);
+    verif::set_exit_observer(Some(Box::new(move |globals: &[Object], _stack: &[Object]| {
+        let r = catch_unwind(AssertUnwindSafe(|| {
+            let mut w = Walker::new();
+            globals.iter().take(n).map(|o| w.walk(*o)).collect::<Vec<Val>>()
+        }));
+        if let Ok(v) = r {
+            SNAPSHOT.with(|s| *s.borrow_mut() = Some(v));
+        }
+    })));
+    let o = run_eval(src, cfg);
+    verif::set_exit_observer(None);
+    let snap = SNAPSHOT.with(|s| s.borrow_mut().take());
+    (o, snap)
+}
+
+// ---------------------------------------------------------------------------------------
+// current-case journal: lets the supervising process name the input that killed a worker
+
+static JOURNAL_ON: std::sync::atomic::AtomicBool = std::sync::atomic::AtomicBool::new(false);
+static JOURNAL_SEQ: std::sync::atomic::AtomicUsize = std::sync::atomic::AtomicUsize::new(0);
+
+thread_local! {
+    static JOURNAL: RefCell<Option<std::fs::File>> = const { RefCell::new(None) };
+}
+
+pub fn journal_dir() -> std::path::PathBuf {
+    if let Ok(d) = std::env::var("NLV_JOURNAL_DIR") {
+        return std::path::PathBuf::from(d);
+    }
+    crate::report::verif_dir().join("work").join("current").join(std::process::id().to_string())
+}
+
+pub fn journal_enable() {
+    let _ = std::fs::create_dir_all(journal_dir());
+    JOURNAL_ON.store(true, std::sync::atomic::Ordering::Relaxed);
+}
+
+/// Records the input that is about to be handed to the implementation (tag: eval | parse | lex)
+pub fn note_current(tag: &str, text: &str) {
+    use std::io::{Seek, SeekFrom, Write};
+    if !JOURNAL_ON.load(std::sync::atomic::Ordering::Relaxed) {
+        return;
+    }
+    JOURNAL.with(|j| {
+        let mut j = j.borrow_mut();
+        if j.is_none() {
+            let n = JOURNAL_SEQ.fetch_add(1, std::sync::atomic::Ordering::Relaxed);
+            let p = journal_dir().join(format!("{}-{}.txt", std::process::id(), n));
+            *j = std::fs::File::create(p).ok();
+        }
+        if let Some(f) = j.as_mut() {
+            let _ = f.seek(SeekFrom::Start(0));
+            let _ = f.write_all(tag.as_bytes());
+            let _ = f.write_all(b"\n");
+            let _ = f.write_all(text.as_bytes());
+            let _ = f.set_len((tag.len() + 1 + text.len()) as u64);
+        }
+    });
+}
+
+/// Runs the action a journal entry describes (in a sacrificial process)
+pub fn probe(tag: &str, text: &str) {
+    match tag {
+        "parse" => {
+            let _ = catch_unwind(|| nederlang::parser::parse(text).map(|t| t.len()));
+        }
+        "lex" => {
+            let _ = catch_unwind(|| verif::tokens(text));
+        }
+        _ => {
+            install_gc_observer();
+            let _ = run_eval(text, &RunCfg { budget: 30_000_000, audit_heap: true });
+        }
+    }
 }
